@@ -988,7 +988,8 @@ def _case_qsnap_seq(case, ctx):
 # ---- parent resolution configurations (VMDK, QCOW2 opt-out, Parallels) ---------------------------------------------
 def _shard_locate(shard, ctx):
     for cfg in ("vmdk-same-dir", "vmdk-relative", "vmdk-backslash-abs", "vmdk-sibling-dir", "vmdk-missing",
-                "vmdk-embedded-missing", "vmdk-embedded-found", "qcow2-none-given", "qcow2-optout", "qcow2-given",
+                "vmdk-embedded-missing", "vmdk-embedded-found", "vmdk-embedded-nameless-handle", "vmdk-embedded-nameless-list",
+                "vmdk-text-descriptor-nameless-handle", "qcow2-none-given", "qcow2-optout", "qcow2-given",
                 "hdd-missing-image", "hdd-moved-absolute"):
         run_case({"kind": "locate", "cfg": cfg}, ctx)
 
@@ -1005,7 +1006,8 @@ def _case_locate(case, ctx, d):
     disk = GuestDisk(3 * unit, unit, top_states, 2, parent)
     alone = GuestDisk(3 * unit, unit, top_states, 2)
     reqs = [(0, 3 * unit), (0, 512), (unit - 1, 2), (2 * unit, 100)]
-    expect_fail = cfg in ("vmdk-missing", "vmdk-embedded-missing", "qcow2-none-given", "hdd-missing-image")
+    expect_fail = cfg in ("vmdk-missing", "vmdk-embedded-missing", "qcow2-none-given", "hdd-missing-image",
+                          "vmdk-embedded-nameless-handle", "vmdk-embedded-nameless-list", "vmdk-text-descriptor-nameless-handle")
     optout = cfg == "qcow2-optout"
     with ctx.watch(case):
         try:
@@ -1046,10 +1048,10 @@ def _open_locate(cfg, d, grain, base_states, top_states):
         os.makedirs(vm)
         os.makedirs(old)
         where = {"vmdk-same-dir": vm, "vmdk-relative": old, "vmdk-backslash-abs": vm, "vmdk-sibling-dir": old,
-                 "vmdk-missing": None, "vmdk-embedded-missing": None, "vmdk-embedded-found": vm}[cfg]
+                 "vmdk-missing": None, "vmdk-embedded-missing": None, "vmdk-embedded-found": vm}.get(cfg, vm)
         hint = {"vmdk-same-dir": "base.vmdk", "vmdk-relative": "../old/base.vmdk",
                 "vmdk-backslash-abs": "C:\\Users\\x\\vm\\base.vmdk", "vmdk-sibling-dir": "/somewhere/else/old/base.vmdk",
-                "vmdk-missing": "base.vmdk", "vmdk-embedded-missing": "base.vmdk", "vmdk-embedded-found": "base.vmdk"}[cfg]
+                "vmdk-missing": "base.vmdk", "vmdk-embedded-missing": "base.vmdk", "vmdk-embedded-found": "base.vmdk"}.get(cfg, "base.vmdk")
         if where:
             BV.build_hosted(base_states, _slots_for(base_states, 0, (DATA,)), grain, layer=1).write_to(
                 os.path.join(where, "base-s001.vmdk"))
@@ -1059,9 +1061,25 @@ def _open_locate(cfg, d, grain, base_states, top_states):
         if cfg.startswith("vmdk-embedded"):
             txt = BV.descriptor_text("monolithicSparse", [("RW", W * grain, "SPARSE", "top.vmdk", None)], cid="00000002",
                                      parent_cid="00000001", parent_hint=hint)
-            BV.build_hosted(top_states, _slots_for(top_states, 1, (DATA,)), grain, layer=2, descriptor=txt).write_to(
-                os.path.join(vm, "top.vmdk"))
+            timg = BV.build_hosted(top_states, _slots_for(top_states, 1, (DATA,)), grain, layer=2, descriptor=txt)
+            if cfg == "vmdk-embedded-nameless-handle":
+                # a delta handed over as an object without a name: there is nowhere to look for the parent it names -- it
+                # cannot be served alone (the parent exists on disk, which makes no difference)
+                import io as _io
+
+                return VMDK(_io.BytesIO(timg.tobytes()))
+            if cfg == "vmdk-embedded-nameless-list":
+                import io as _io
+
+                return VMDK([_io.BytesIO(timg.tobytes())])
+            timg.write_to(os.path.join(vm, "top.vmdk"))
             return VMDK(Path(vm) / "top.vmdk")
+        if cfg == "vmdk-text-descriptor-nameless-handle":
+            import io as _io
+
+            BV.build_hosted(top_states, _slots_for(top_states, 1, (DATA,)), grain, layer=2).write_to(os.path.join(vm, "top-s001.vmdk"))
+            return VMDK(_io.BytesIO(BV.descriptor_text("monolithicSparse", [("RW", W * grain, "SPARSE", "top-s001.vmdk", None)],
+                                                       cid="00000002", parent_cid="00000001", parent_hint=hint).encode()))
         BV.build_hosted(top_states, _slots_for(top_states, 1, (DATA,)), grain, layer=2).write_to(
             os.path.join(vm, "top-s001.vmdk"))
         with open(os.path.join(vm, "top.vmdk"), "w") as f:
